@@ -139,6 +139,80 @@ example : noTmp (.index (.sel (.opq 1) 0) (.opq 2)) = true ∧ addressable (.ind
     (desugar (.index (.sel (.opq 1) 0) (.opq 2)) (.opq 3)).tmps.map (fun d => tmpName d.name) = ["_struct", "_index"] := by
   decide
 
+/-! ### tuple assignment: a recorded defect (known finding `C01-tuple-assign-lhs-after-rhs`) -/
+
+/-- full strength (NOT claimed): the emitted tuple assignment behaves like the specification -/
+def tuple_assign_full : Prop :=
+  ∀ (ls rs : List Ex) (t : Tmp) (s : List Nat), codeTuple traceEnv t ls rs s = specTuple traceEnv t ls rs s
+
+/-- it fails: in `a[f()], a[g()] = h(), i()` Go calls f, g, h, i — the emitted code calls h, i, f, g -/
+theorem tuple_assign_counterexample : ¬ tuple_assign_full := by
+  intro h
+  have := h [.index (.ident 0) (.opq 1), .index (.ident 0) (.opq 2)] [.opq 3, .opq 4] (fun _ => 0) []
+  revert this
+  decide
+
+theorem all_cons_ident (e : Ex) (r : List Ex) (h : (e :: r).all isIdent = true) :
+    ∃ x, e = .ident x ∧ r.all isIdent = true := by
+  simp only [List.all_cons, Bool.and_eq_true] at h
+  obtain ⟨h1, h2⟩ := h
+  cases e <;> simp [isIdent] at h1
+  exact ⟨_, rfl, h2⟩
+
+/-- **tuple_assign_partial** — when every left side is a plain variable (`a, b = b, a`, `x, y, z = y, z, x`,
+    `v, ok = …`) the emitted code IS the specification, for every interpretation and every store. -/
+theorem tuple_assign_partial (E : GV.Desugar.Env σ) (t : Tmp) (ls rs : List Ex) (hl : ls.all isIdent = true) (s : σ) :
+    codeTuple E t ls rs s = specTuple E t ls rs s := by
+  have hL : ∀ (ls : List Ex), ls.all isIdent = true → ∀ s, (evalLs E t ls s).2 = s := by
+    intro ls
+    induction ls with
+    | nil => intro _ s; rfl
+    | cons e r ih =>
+      intro h s
+      obtain ⟨x, rfl, h⟩ := all_cons_ident e r h
+      simp only [evalLs, evalL]
+      exact ih h s
+  have hA : ∀ (ls : List Ex), ls.all isIdent = true → ∀ (vs : List Val) (s : σ),
+      assignEach E t ls vs s = storeAll E (evalLs E t ls s).1 vs s := by
+    intro ls
+    induction ls with
+    | nil => intro _ vs s; cases vs <;> rfl
+    | cons e r ih =>
+      intro h vs s
+      obtain ⟨x, rfl, h⟩ := all_cons_ident e r h
+      cases vs with
+      | nil => rfl
+      | cons v vs =>
+        simp only [assignEach, evalL, evalLs, storeAll]
+        rw [ih h vs]
+        congr 1
+        -- the locations of the remaining variables do not depend on the store
+        have hloc : ∀ (r : List Ex), r.all isIdent = true → ∀ s s' : σ, (evalLs E t r s).1 = (evalLs E t r s').1 := by
+          intro r
+          induction r with
+          | nil => intro _ _ _; rfl
+          | cons e r ih2 =>
+            intro h s s'
+            obtain ⟨x, rfl, h⟩ := all_cons_ident e r h
+            simp only [evalLs, evalL]
+            rw [ih2 h s s']
+        exact hloc r h _ _
+  simp only [codeTuple, specTuple, hL ls hl]
+  rw [hA ls hl]
+  congr 1
+  have hloc : ∀ (r : List Ex), r.all isIdent = true → ∀ s s' : σ, (evalLs E t r s).1 = (evalLs E t r s').1 := by
+    intro r
+    induction r with
+    | nil => intro _ _ _; rfl
+    | cons e r ih2 =>
+      intro h s s'
+      obtain ⟨x, rfl, h⟩ := all_cons_ident e r h
+      simp only [evalLs, evalL]
+      rw [ih2 h s s']
+  exact hloc ls hl _ _
+
+example : [Ex.ident 1, Ex.ident 2, Ex.ident 3].all isIdent = true := by decide
+
 end Desugar
 
 /-! ## JavaScript identifier allocation, minification off -/
@@ -177,7 +251,8 @@ theorem renderInj_ascii (ops : List Op)
     (hreq : ∀ op ∈ ops, match op with
       | .req name _ => ∀ c ∈ name, unreserved c = true
       | .push fn => ∀ c ∈ fn, unreserved c = true
-      | .pop => True) : RenderInj (bases ops) := by
+      | .pop => True
+      | .ptr _ _ => False) : RenderInj (bases ops) := by
   apply renderInj_noDollar
   intro b hb
   simp only [bases, List.mem_flatMap] at hb
@@ -194,6 +269,7 @@ theorem renderInj_ascii (ops : List Op)
     simp only [opBase, List.mem_singleton] at hb
     rw [hb]
     exact encodeIdent_dots_noDollar fn this
+  | ptr v name => exact absurd this id
 
 theorem encodeIdent_ascii_id (name : Name) (h : ∀ c ∈ name, unreserved c = true) : encodeIdent name = name :=
   encodeIdent_ascii name h
@@ -203,7 +279,8 @@ theorem names_distinct_plain_ascii (ops : List Op) (st : NState)
     (hreq : ∀ op ∈ ops, match op with
       | .req name _ => ∀ c ∈ name, unreserved c = true
       | .push fn => ∀ c ∈ fn, unreserved c = true
-      | .pop => True)
+      | .pop => True
+      | .ptr _ _ => False)
     (h : runOps false initState ops = some st) :
     (visible st).Nodup ∧ (∀ n ∈ visible st, n ∉ reserved) :=
   names_distinct_plain ops st (renderInj_ascii ops hreq) h
@@ -233,7 +310,8 @@ def encodeIdent_inj_utf8 (validUtf8 : Name → Prop) : Prop :=
   ∀ ops : List Op, (∀ op ∈ ops, match op with
       | .req name _ => validUtf8 name
       | .push fn => validUtf8 fn
-      | .pop => True) → RenderInj (bases ops)
+      | .pop => True
+      | .ptr _ name => validUtf8 name) → RenderInj (bases ops)
 
 /-- the hypotheses are satisfiable by a non-trivial history: `x`, `x` again, a nested function `f`, `let` -/
 example : RenderInj (bases [.req [120] false, .req [120] false, .push [102], .req [108, 101, 116] false]) := by
